@@ -7,7 +7,7 @@ import posixpath
 import sys
 import urllib.parse
 
-from common import finish_replay, load_replay, main, rng
+from common import REPO, finish_replay, load_replay, main, rng
 
 from streamflow.cwl.utils import remap_path, remap_token_value
 
@@ -86,6 +86,88 @@ def search(n):
     return None
 
 
+_TOOL = """\
+cwlVersion: v1.2
+class: CommandLineTool
+requirements:
+  ShellCommandRequirement: {}
+inputs:
+  msg: string
+arguments:
+  - shellQuote: false
+    valueFrom: "mkdir -p 'out/s b/deep' && echo $(inputs.msg) > out/f.txt && echo $(inputs.msg) > 'out/s b/g h.txt' && echo $(inputs.msg) > 'out/s b/deep/k.txt'"
+outputs:
+  d:
+    type: Directory
+    outputBinding:
+      glob: out
+      loadListing: deep_listing
+"""
+
+
+def real_run_case(nsteps):
+    """remapping as the engine uses it: `nsteps` steps each produce a Directory named `out` (with a nested listing, names with
+    spaces); the workflow collects them into one output directory, so all but the first are stored under a de-duplicated name and
+    their listings are remapped (CWLTransferStep -> remap_token_value) to it.  Every element of a collected listing must live under
+    ITS directory and hold its step's content, and remapping the collected value elsewhere and back must restore it."""
+    import subprocess
+    import tempfile
+    import shutil
+    base = os.path.realpath(tempfile.mkdtemp(prefix="c32run."))
+    try:
+        wf, outdir, home = (os.path.join(base, x) for x in ("wf", "outdir", "home"))
+        for d in (wf, outdir, home):
+            os.makedirs(d)
+        open(os.path.join(wf, "tool.cwl"), "w").write(_TOOL)
+        steps = [f"s{i}" for i in range(nsteps)]
+        open(os.path.join(wf, "main.cwl"), "w").write(
+            "cwlVersion: v1.2\nclass: Workflow\ninputs:\n" + "".join(f"  m{i}: string\n" for i in range(nsteps))
+            + "outputs:\n" + "".join(f"  d{i}:\n    type: Directory\n    outputSource: s{i}/d\n" for i in range(nsteps))
+            + "steps:\n" + "".join(f"  s{i}:\n    run: tool.cwl\n    in: {{msg: m{i}}}\n    out: [d]\n" for i in range(nsteps)))
+        open(os.path.join(wf, "inputs.yml"), "w").write("".join(f"m{i}: content-{i}\n" for i in range(nsteps)))
+        code = ("import sys; sys.path.insert(0, %r)\nfrom streamflow.cwl.runner import main\n"
+                "sys.exit(main(['--quiet', '--outdir', %r, %r, %r]))\n" % (REPO, outdir, os.path.join(wf, "main.cwl"), os.path.join(wf, "inputs.yml")))
+        try:
+            r = subprocess.run([sys.executable, "-c", code], cwd=outdir, env=dict(os.environ, HOME=home), capture_output=True, text=True, timeout=300)
+        except subprocess.TimeoutExpired:
+            return {"failure": "the CWL run that collects the directories did not finish within 300 s"}
+        if r.returncode != 0 or "{" not in r.stdout:
+            return {"failure": "the CWL run that collects the directories failed", "rc": r.returncode, "stderr": r.stderr[-600:]}
+        outputs = json.loads(r.stdout[r.stdout.index("{"):])
+
+        def walk(v):
+            for e in v.get("listing", []):
+                yield e
+                yield from walk(e)
+
+        roots = set()
+        for i in range(nsteps):
+            v = outputs[f"d{i}"]
+            root = v["path"]
+            if root in roots or not os.path.isdir(root):
+                return {"failure": "two collected directories share one path, or the collected directory does not exist", "output": f"d{i}", "path": root}
+            roots.add(root)
+            rel = sorted((e["class"], posixpath.relpath(e["path"], root)) for e in walk(v))
+            want = [("Directory", "s b"), ("Directory", "s b/deep"), ("File", "f.txt"), ("File", "s b/deep/k.txt"), ("File", "s b/g h.txt")]
+            for e in walk(v):
+                for k in ("path", "location"):
+                    pth = e[k][7:] if e[k].startswith("file://") else e[k]
+                    if not urllib.parse.unquote(pth).startswith(root + "/") and not pth.startswith(root + "/"):
+                        return {"failure": "an element of a collected Directory's listing was not remapped under that directory", "output": f"d{i}",
+                                "directory": root, "element": e[k]}
+                if e["class"] == "File" and open(e["path"]).read().strip() != f"content-{i}":
+                    return {"failure": "an element of a collected listing points at another step's file", "output": f"d{i}", "element": e["path"]}
+            if rel != want:
+                return {"failure": "the collected listing is not the produced tree", "output": f"d{i}", "listing": rel}
+            there = remap_token_value(posixpath, root, "/some where/else", copy.deepcopy(v))
+            back = remap_token_value(posixpath, "/some where/else", root, copy.deepcopy(there))
+            if [(e["path"], e["location"]) for e in walk(back)] != [(e["path"], e["location"]) for e in walk(v)]:
+                return {"failure": "remapping a collected value there and back does not restore its listing", "output": f"d{i}"}
+        return None
+    finally:
+        shutil.rmtree(base, ignore_errors=True)
+
+
 def check_axioms(n):
     """A-OSPATH / A-URLLIB / A-STR of contracts/C32.py on concrete normalised paths"""
     bad = []
@@ -146,7 +228,7 @@ def crosscheck(n):
     if ax:
         print(json.dumps({"inputs": k, "axiom_disagreements": len(ax), "samples": ax[:3]}, default=str))
         sys.exit(3)
-    bad = search(k) or check_get_path()
+    bad = search(k) or check_get_path() or real_run_case(2 if int(n) <= 100 else 4)
     print(json.dumps({"inputs": k, "native_contract_failures": 1 if bad else 0, "samples": [bad] if bad else [], "known_findings": sorted(KNOWN)}, default=str))
     sys.exit(1 if bad else 0)
 
